@@ -150,6 +150,39 @@ let do_ap () : string =
         | _ -> src_s (C.slot_of0 b.C.b_slots p.C.pname) in
       String.concat "|" (List.map slot ps)
 
+(* ---- guarded blocks (uninit validator):
+   gfunc  = <nblocks> (label <ngops> gop* term)*
+   gop    = p <op> | U d | G k neg operand exit | I B | S B i | C B i | T B i exit *)
+let read_gop () : C.gop =
+  match next () with
+  | "p" -> C.GOp (read_op ())
+  | "U" -> C.GUndef (pos ())
+  | "G" -> let k = pos () in let neg = int () = 1 in let v = operand () in let ex = pos () in C.GGuard (k, neg, v, ex)
+  | "I" -> C.GBmInit (pos ())
+  | "S" -> let b = pos () in let i = nat_of_int (int ()) in C.GBmSet (b, i)
+  | "C" -> let b = pos () in let i = nat_of_int (int ()) in C.GBmClr (b, i)
+  | "T" -> let b = pos () in let i = nat_of_int (int ()) in let ex = pos () in C.GBmGuard (b, i, ex)
+  | _ -> failwith "gop"
+let read_gfunc () : C.gfunc =
+  times (int ()) (fun () ->
+      let l = pos () in
+      let ops = times (int ()) read_gop in
+      let t = read_term () in
+      (l, { C.g_ops = ops; g_term = t }))
+let plist () = times (int ()) pos
+let do_un () : string =
+  let tracked = plist () in
+  let args = plist () in
+  let bmt = times (int ()) (fun () -> let r = pos () in let b = pos () in let i = nat_of_int (int ()) in (r, (b, i))) in
+  let defk = plist () in
+  let iserrk = plist () in
+  let raise_ = plist () in
+  let ann = times (int ()) (fun () -> let l = pos () in let a = plist () in (l, a)) in
+  let h = { C.u_tracked = tracked; u_args = args; u_bmt = bmt; u_defk = defk; u_iserrk = iserrk; u_raise = raise_; u_ann = ann } in
+  let before = read_gfunc () in
+  let after = read_gfunc () in
+  if C.validate_uninit h before after then "1" else "0"
+
 let handle (ws : string list) : string =
   match ws with
   | "vt" :: r -> toks := r; do_vt ()
@@ -157,5 +190,6 @@ let handle (ws : string list) : string =
   | "cp" :: r -> toks := r; do_cp ()
   | "fe" :: r -> toks := r; do_fe ()
   | "ap" :: r -> toks := r; do_ap ()
+  | "un" :: r -> toks := r; do_un ()
   | _ -> "!BAD"
 let () = main handle
